@@ -46,7 +46,7 @@ def leftover_partition_stage(ctx, cov):
                         why = why or "block %d belongs to two live extents" % b
                     owner[b] = f[0]
             free = set()
-            for t in [t for t in m.group(4).split(",") if t]:
+            for t in [t for t in m.group(4).split(",") if t and t != "-"]:   # (an empty free list is printed as `-`)
                 a, c = [int(x) for x in t.split(":")]
                 for b in range(a, a + c):
                     if b in owner or b in free or b < 16 or b >= blocks:
